@@ -1,1 +1,39 @@
-fn main() { println!("hello"); }
+#![allow(dead_code, unused_imports)]
+//! Verification harness for rustls/rcgen: concretise abstract cases, call the real API, project the
+//! outputs with an independent decoder, log one event per call. Contains no expected values and no
+//! property logic: every accept/reject decision is taken by TLC on the TLA+ specification.
+
+mod certdrv;
+mod der;
+mod desc;
+mod keys;
+mod ossl;
+mod pemx;
+mod project;
+mod util;
+mod verify;
+mod x509;
+
+#[cfg(feature = "ring")]
+pub const BACKEND: &str = "ring";
+#[cfg(all(feature = "awslc", not(feature = "ring")))]
+pub const BACKEND: &str = "awslc";
+#[cfg(not(any(feature = "ring", feature = "awslc")))]
+pub const BACKEND: &str = "none";
+
+fn main() {
+	util::install_silent_panic_hook();
+	let args: Vec<String> = std::env::args().collect();
+	if args.len() < 2 {
+		eprintln!("usage: harness <cmd> ...");
+		std::process::exit(2);
+	}
+	match args[1].as_str() {
+		"backend" => println!("{}", BACKEND),
+		"cert-cases" => certdrv::run_cases(&args[2], &args[3]),
+		other => {
+			eprintln!("unknown command {}", other);
+			std::process::exit(2);
+		},
+	}
+}
